@@ -557,6 +557,11 @@ func (g *G) CreateView(d int) X {
 	g.NeedFrom--
 	t.F["Query"] = q.T
 	toks = cat(toks, kw("AS"), q.Toks)
+	if !mat && g.R.Intn(4) == 0 {
+		opt := g.pick([]string{"CHECK OPTION", "CASCADED CHECK OPTION", "LOCAL CHECK OPTION"})
+		toks = cat(toks, kw("WITH "+opt))
+		t.Set("WithOption", opt)
+	}
 	if mat && g.R.Intn(3) == 0 {
 		if g.R.Intn(2) == 0 {
 			toks = cat(toks, kw("WITH DATA"))
